@@ -505,6 +505,10 @@ int main() {
             bytes out = top->serialize();
             if (w[0] == "pkt") {
                 o << "ok bytes=" << to_hex(out) << " L=" << layers_of(*top);
+                // the same object serialized once more (serialize() stores derived fields back into the object):
+                // reported only when it differs, so that the model's line (a pure function of the packet) still matches
+                bytes again = top->serialize();
+                if (again != out) o << " again=" << to_hex(again);
                 return o.str();
             }
             o << "ok pf=";
@@ -533,6 +537,8 @@ int main() {
             else return "bad-op";
             bytes out = top->serialize();
             o << "ok bytes=" << to_hex(out) << " L=" << layers_of(*top);
+            bytes again = top->serialize();
+            if (again != out) o << " again=" << to_hex(again);
             return o.str();
         }
         return "bad-op";
